@@ -9,6 +9,7 @@ use std::panic::catch_unwind;
 use serde_json::Value;
 use serde_json::json;
 
+mod git_props;
 mod matcher_props;
 mod merge_props;
 mod refs_props;
@@ -29,6 +30,7 @@ fn main() {
             "c02" => merge_props::c02(&case),
             "c12" => refs_props::c12(&case),
             "c30" => matcher_props::c30(&case),
+            "c33" => git_props::c33(&case),
             _ => json!({"error": format!("unknown property {prop}")}),
         }));
         let out = match res {
